@@ -136,7 +136,11 @@ def _weak_crypto_key_size_cryptography_io(context, config):
             len(context.call_args) > arg_position[key_type]
             and context.call_args[arg_position[key_type]]
         )
-        key_size = curve_key_sizes[curve] if curve in curve_key_sizes else 224
+        key_size = (
+            curve_key_sizes[curve]
+            if isinstance(curve, str) and curve in curve_key_sizes
+            else 224
+        )
         return _classify_key_size(config, key_type, key_size)
 
 
